@@ -28,7 +28,7 @@ PLAN = {
     "C05": dict(engine="vsim", level="exploration", extra=["vfront"]),
     "C06": dict(engine="vsim", level="fault_enumeration", extra=["vproc", "vstore"]),
     "C07": dict(engine="vsim", level="exploration", extra=["vproc"]),
-    "C08": dict(engine="vsim", level="exploration"),
+    "C08": dict(engine="vsim", level="exploration", extra=["vroute"]),
     "C09": dict(engine="vsim", level="exploration", extra=["vproc", "vfront"]),
     "C10": dict(engine="vsim", level="exploration", extra=["vfront"]),
     "C11": dict(engine="vsim", level="exploration", extra=["vconc", "vproc"]),
